@@ -291,6 +291,22 @@ def run_C05(run):
                                    "from mc import rx\ndef out(f):\n    try:\n        return ('ok', str(f()))\n    except Exception as e:\n        return ('raise', type(e).__name__)\n"
                                    f"a = out(lambda: {a_src})\nb = out(lambda: {b_src})\n"
                                    "assert a == b or (a[0] == b[0] == 'ok' and rx.equiv(a[1], b[1])[0] in ('tree', 'texts')), (a, b)")])
+    # enclosing the empty pattern: by the identity of concatenation, Enclose(<empty>, x) is x followed by x
+    for e in ("Pregex()", "''", "Concat()", "Exactly('a', 0)"):
+        for x_ in ("'x'", "Either('a', 'b')", "AnyDigit()", "Capture('a')", "'a|b'"):
+            for a_src in (f"Enclose({e}, {x_})", f"({e} if not isinstance({e}, str) else Pregex({e})).enclose({x_})", f"Enclose({e}, {x_}, {x_})"):
+                b_src = f"Concat({x_}, {x_})" if a_src.count(x_) == 1 else f"Concat({x_}, {x_}, {x_}, {x_})"
+                m += 1
+                res = []
+                for src in (a_src, b_src):
+                    try:
+                        res.append(('ok', str(dsl.build(src))))
+                    except Exception as ex:  # noqa: BLE001
+                        res.append(('raise', type(ex).__name__))
+                a, b = res
+                if not (a == b or (a[0] == b[0] == 'ok' and rx.equiv(a[1], b[1])[0] in ('tree', 'texts'))):
+                    run.add([V(f'C05|enclose-empty|{a_src}', f"{a_src} -> {a!r}, expected the equivalent of {b_src} -> {b!r}",
+                               f"from mc import rx\na = str({a_src})\nb = str({b_src})\nassert rx.equiv(a, b)[0] in ('tree', 'texts'), (a, b)")])
     run.count('identity_then_cases', m)
     n += m
     run.count('nary_empty_cases', n)
@@ -544,6 +560,29 @@ def run_C10(run):
                 if bad:
                     run.add([V(f'C10|structured|{src}', f"{src}: {bad} (the assertion pattern {ytext!r} has one fixed width)",
                                f"from mc import rx\nr = {src}\nv = rx.equiv(str(r), {ref!r})\nassert v[0] in ('tree', 'texts'), (str(r), v)")])
+    # assertion patterns that refer to groups defined outside them, over the alphabet of reference forms (numbers 1, 2, 9, 10, 50, 98, 99;
+    # ASCII, underscore, digit-bearing, non-ASCII and long names): fixed-width companions are accepted, variable-width ones refused
+    refs = ["Backreference(%d)" % k for k in (1, 2, 9, 10, 50, 98, 99)] + ["Backreference(%r)" % s for s in ('n', '_', 'x1', 'Ab_9', 'x' * 30)]
+    conds = ['n', '_', 'x1', 'd\u00eda', 'x\u540d', 'caf\u00e9', 'x' * 30]
+    fixed_c, var_c = ["", " + 'a'", " + AnyDigit()", " + Exactly('a', 2)", " + Either('a', 'b')"], [" + Optional('a')", " + OneOrMore(AnyDigit())", " + Either('a', 'bc')", " + AtMost('a', 2)"]
+    cases = [(r + c, True) for r in refs for c in fixed_c] + [(r + c, False) for r in refs for c in var_c]
+    cases += [("'a' + " + r, True) for r in refs] + [("Optional('a') + " + r, False) for r in refs]
+    for nm in conds:
+        cases += [(f"Conditional({nm!r}, 'a', 'c')", True), (f"Conditional({nm!r}, AnyDigit(), AnyLetter())", True), (f"Conditional({nm!r}, 'ab', 'cd') + 'e'", True),
+                  (f"Conditional({nm!r}, 'ab', 'c')", False), (f"Conditional({nm!r}, 'ab')", False), (f"Conditional({nm!r}, Optional('a'), 'c')", False),
+                  (f"Conditional({nm!r}, 'a', 'c') + OneOrMore('d')", False)]
+    for y, is_fixed in cases:
+        for src in (f"PrecededBy('k', {y})", f"NotPrecededBy('k', {y})", f"EnclosedBy('k', {y})", f"Pregex('k').not_enclosed_by({y})", f"PrecededBy('k', 'z', {y})"):
+            n += 1
+            try:
+                r = dsl.build(src)
+                got = 'accepted'
+            except Exception as e:  # noqa: BLE001
+                got = type(e).__name__
+            want = 'accepted' if is_fixed else 'NonFixedWidthPatternException'
+            if got != want:
+                run.add([V(f'C10|reference|{src}', f"{src}: {got}, expected {want} (widths are relative to fixed-width referenced groups)",
+                           (f"r = {src}" if is_fixed else f"try:\n    r = {src}\nexcept NonFixedWidthPatternException:\n    pass\nelse:\n    raise AssertionError('accepted: ' + str(r))"))])
     run.count('variable_width_sweep_cases', n)
     cov['transitions'] += n
     cov['traces_validated_against_impl'] += n
